@@ -7,6 +7,7 @@ import (
 	"os/exec"
 	"path/filepath"
 	"strings"
+	"syscall"
 	"testing"
 	"time"
 
@@ -94,6 +95,9 @@ func (c18) Gen(seed uint64, idx int, tier string) *Scenario {
 		sc.SetStr("mode", "plain")
 	}
 	sc.SetInt("aseed", r.Intn(1<<30))
+	// what standard input is, when it is used: a pipe, a regular file, a regular file whose
+	// offset the parent has already advanced past a header, a socket
+	sc.SetInt("stdinkind", r.Intn(4))
 	return sc
 }
 
@@ -204,6 +208,9 @@ func spellArgs(r *prng.R, flags string, file string, extra []string) []string {
 	return args
 }
 
+// c18StdinKind: see Gen ("stdinkind").
+var c18StdinKind int
+
 type procResult struct {
 	triple
 	timedOut bool
@@ -228,7 +235,30 @@ func runBin(dir string, args []string, stdin []byte, strace []string) procResult
 	var so, se bytes.Buffer
 	cmd.Stdout, cmd.Stderr = &so, &se
 	if stdin != nil {
-		cmd.Stdin = bytes.NewReader(stdin)
+		cmd.Stdin = bytes.NewReader(stdin) // a pipe fed by os/exec
+		switch c18StdinKind {
+		case 1, 2: // bcl < file; { read header; bcl; } < file
+			junk := ""
+			if c18StdinKind == 2 {
+				junk = "print \"header line consumed by the parent\"\n"
+			}
+			fn := filepath.Join(dir, "stdin.dat")
+			if os.WriteFile(fn, append([]byte(junk), stdin...), 0o644) == nil {
+				if f, err := os.Open(fn); err == nil {
+					f.Seek(int64(len(junk)), 0)
+					cmd.Stdin = f
+					defer f.Close()
+					defer os.Remove(fn)
+				}
+			}
+		case 3: // a connected socket
+			if fds, err := syscall.Socketpair(syscall.AF_UNIX, syscall.SOCK_STREAM, 0); err == nil {
+				rd, wr := os.NewFile(uintptr(fds[0]), "stdin-socket"), os.NewFile(uintptr(fds[1]), "stdin-socket-peer")
+				cmd.Stdin = rd
+				defer rd.Close()
+				go func() { wr.Write(stdin); wr.Close() }()
+			}
+		}
 	} // else: os/exec connects the child's standard input to /dev/null
 	pr := procResult{}
 	if err := cmd.Start(); err != nil {
@@ -278,6 +308,7 @@ func c18Dir() string {
 func (c18) Run(t *testing.T, sc *Scenario) *Outcome {
 	o := &Outcome{}
 	dir := c18Dir()
+	c18StdinKind = sc.Int("stdinkind", 0)
 	r := prng.New(uint64(sc.Int("aseed", 1)), "argv")
 	flags := sc.Str("flags")
 	srcName := prng.Pick(r, []string{"prog.bcl", "conf.bcl", "noext", "x.y.bcl", "lib.bcl", "basic.bcl", "abc.bcl", "a.b.bcl", "x..bcl", "bcl.bcl",
